@@ -5,7 +5,7 @@ from harness.common import VERSIONS, Reject, Violation, listen_step, new_gateway
 
 PROPERTY = "C02"
 BOUNDS = {
-    "quick": "k=6 core: node,child sym [0,255], ack sym [0,1], type sym [0,40], command 0..4, payload |p|<=1; single-fault: one of the five numeric positions carries an out-of-range symbolic integer (node/child [-2,-1]u[256,258], command [-2,-1]u[5,7], ack [-2,-1]u[2,3]) or a text from a 10-element class list, other ids sym [10,99]; field count k sym [0,8] x 3 terminators (child [10,99]); versions: core on 1.4 and 2.2, others on all five; gateway exception class on field-count and class-list lines",
+    "quick": "k=6 core: node,child sym [0,255], ack sym [0,1], type sym [0,40], command 0..4, payload |p|<=1; single-fault: one of the five numeric positions carries an out-of-range symbolic integer (node/child [-2,-1]u[256,258], command [-2,-1]u[5,7], ack [-2,-1]u[2,3]) or a text from an 18-element class list (non-numbers, and non-canonical spellings such as '+5', ' 7', '0255', '03'), other ids sym [10,99]; field count k sym [0,8] x 3 terminators (child [10,99]); versions: core on 1.4 and 2.2, others on all five; gateway exception class on field-count and class-list lines",
     "thorough": "as quick on all five versions with other ids sym [0,255] in the single-fault scheme; plus the joint window node,child [-1,256] x ack [-1,2] x type [-1,40] x command [-1,5] (all faults at once)",
 }
 REALISED = ["negative integers are realised by CrossHair's int() model", "class-list texts are concrete"]
@@ -18,7 +18,9 @@ MUST_REACH = ["accept", "reject", "short-reject", "long-accept", "gw-reject"]
 
 # text, int() value or None
 CLASS_TEXTS = [("", None), ("abc", None), ("1.0", None), (" ", None), ("0x1", None), ("1e2", None),
-               ("٣", 3), (" 7", 7), ("1_0", 10), ("+5", 5)]
+               ("٣", 3), (" 7", 7), ("1_0", 10), ("+5", 5),
+               # other spellings of boundary values: the cross-field rules must look at the decoded value
+               ("0255", 255), ("+255", 255), (" 255", 255), ("2_5_5", 255), ("03", 3), ("+4", 4), ("01", 1), ("00", 0)]
 TERMS = ["\n", "", "\r\n"]
 
 
